@@ -285,6 +285,7 @@ def Post (p : Prog) (B ra : Nat) (Γ : Gam) (env' : Env) (F D o pcEnd : Nat) (re
   | .norm => st.pc = pcEnd ∧ SInv p Γ env' st.mem F D o ra
   | .returned => st.pc = ra
   | .div0 => st.pc = B + off_division_by_zero
+  | .defeat => False
 
 theorem look_cons_same (Γ : Gam) (x : String) (a : Nat) : look ((x, a) :: Γ) x = a := by
   simp [look, List.lookup]
@@ -387,6 +388,9 @@ theorem pkS_ge (w : Nat) (s : S) : ∀ o, o ≤ pkS w o s := by
   | block b k _ ih => intro o; have := ih o; simp only [pkS]; omega
   | ifb c t e k _ _ ih => intro o; have := ih o; simp only [pkS]; omega
   | loop c b ct k _ _ ih => intro o; have := ih o; simp only [pkS]; omega
+  | defeat k ih => intro o; simpa [pkS] using ih o
+  | defeatIf c k ih => intro o; have := ih o; simp only [pkS]; omega
+  | tryUndo b h k _ _ ih => intro o; have := ih o; simp only [pkS]; omega
 
 theorem yld_reach (pc v : Nat) (m : Mem) (h : p.code[pc]? = some (.yld (.imm v))) :
     Reach (sphinx p) ⟨pc, m⟩ [Ev.out (v % p.M % 256)] ⟨pc + 1, m⟩ := by
@@ -396,6 +400,238 @@ theorem goto_reach (lib : Placed p B) (pc t : Nat) (m : Mem) (h : PlacedAt p pc 
     Reach (sphinx p) ⟨pc, m⟩ [] ⟨t, m⟩ := by
   simpa using br_reach lib pc m (some t) h (fun x hx => by simp at hx; omega)
 
+
 end
+
+/-! ## levels: where `try` and defeat calls may occur -/
+theorem plain_noTry (s : S) : plain s = true → noTry s = true := by
+  induction s with
+  | nil => intro; rfl
+  | ret => intro; rfl
+  | decl x e k ih => simpa [plain, noTry] using ih
+  | assign x e k ih => simpa [plain, noTry] using ih
+  | write e k ih => simpa [plain, noTry] using ih
+  | writeln e k ih => simpa [plain, noTry] using ih
+  | putc c k ih => simpa [plain, noTry] using ih
+  | block b k ihb ihk => simp only [plain, noTry, Bool.and_eq_true]; exact fun h => ⟨ihb h.1, ihk h.2⟩
+  | ifb c t e k iht ihe ihk =>
+    simp only [plain, noTry, Bool.and_eq_true]; exact fun h => ⟨⟨iht h.1.1, ihe h.1.2⟩, ihk h.2⟩
+  | loop c b ct k ihb ihc ihk =>
+    simp only [plain, noTry, Bool.and_eq_true]; exact fun h => ⟨⟨ihb h.1.1, ihc h.1.2⟩, ihk h.2⟩
+  | defeat k _ => simp [plain]
+  | defeatIf c k _ => simp [plain]
+  | tryUndo b h k _ _ _ => simp [plain]
+
+theorem plain_youLevel (s : S) : plain s = true → youLevel s = true := by
+  induction s with
+  | nil => intro; rfl
+  | ret => intro; rfl
+  | decl x e k ih => simpa [plain, youLevel] using ih
+  | assign x e k ih => simpa [plain, youLevel] using ih
+  | write e k ih => simpa [plain, youLevel] using ih
+  | writeln e k ih => simpa [plain, youLevel] using ih
+  | putc c k ih => simpa [plain, youLevel] using ih
+  | block b k ihb ihk => simp only [plain, youLevel, Bool.and_eq_true]; exact fun h => ⟨ihb h.1, ihk h.2⟩
+  | ifb c t e k iht ihe ihk =>
+    simp only [plain, youLevel, Bool.and_eq_true]; exact fun h => ⟨⟨iht h.1.1, ihe h.1.2⟩, ihk h.2⟩
+  | loop c b ct k ihb ihc ihk =>
+    simp only [plain, youLevel, Bool.and_eq_true]; exact fun h => ⟨⟨ihb h.1.1, ihc h.1.2⟩, ihk h.2⟩
+  | defeat k _ => simp [plain]
+  | defeatIf c k _ => simp [plain]
+  | tryUndo b h k _ _ _ => simp [plain]
+
+/-- at the level of the you function a defeat never escapes: every defeat call sits in a `try` -/
+theorem exec_no_defeat (M n : Nat) : ∀ (fuel : Nat) (s : S) (env env' : Env) (tr : List Ev) (res : Res),
+    youLevel s = true → exec M n fuel env s = some (env', tr, res) → res ≠ .defeat := by
+  intro fuel
+  induction fuel with
+  | zero => intro s env env' tr res _ h; simp [exec] at h
+  | succ f ih =>
+    intro s env env' tr res hy hex
+    cases s with
+    | nil => simp only [exec, Option.some.injEq, Prod.mk.injEq] at hex; rw [← hex.2.2]; decide
+    | ret => simp only [exec, Option.some.injEq, Prod.mk.injEq] at hex; rw [← hex.2.2]; decide
+    | decl x e k =>
+      simp only [youLevel] at hy
+      simp only [exec] at hex
+      cases hev : evalE M n env e with
+      | none => simp only [hev, Option.some.injEq, Prod.mk.injEq] at hex; rw [← hex.2.2]; decide
+      | some v => simp only [hev] at hex; exact ih k _ _ _ _ hy hex
+    | assign x e k =>
+      simp only [youLevel] at hy
+      simp only [exec] at hex
+      cases hev : evalE M n env e with
+      | none => simp only [hev, Option.some.injEq, Prod.mk.injEq] at hex; rw [← hex.2.2]; decide
+      | some v => simp only [hev] at hex; exact ih k _ _ _ _ hy hex
+    | write e k =>
+      simp only [youLevel] at hy
+      simp only [exec] at hex
+      cases hev : evalE M n env e with
+      | none => simp only [hev, Option.some.injEq, Prod.mk.injEq] at hex; rw [← hex.2.2]; decide
+      | some v =>
+        simp only [hev] at hex
+        cases hk : exec M n f env k with
+        | none => simp [hk] at hex
+        | some rk =>
+          obtain ⟨e1, t1, r1⟩ := rk
+          simp only [hk, Option.bind_eq_bind, Option.bind_some, Option.pure_def, Option.some.injEq, Prod.mk.injEq] at hex
+          rw [← hex.2.2]; exact ih k _ _ _ _ hy hk
+    | writeln e k =>
+      simp only [youLevel] at hy
+      cases e with
+      | none =>
+        simp only [exec] at hex
+        cases hk : exec M n f env k with
+        | none => simp [hk] at hex
+        | some rk =>
+          obtain ⟨e1, t1, r1⟩ := rk
+          simp only [hk, Option.bind_eq_bind, Option.bind_some, Option.pure_def, Option.some.injEq, Prod.mk.injEq] at hex
+          rw [← hex.2.2]; exact ih k _ _ _ _ hy hk
+      | some e =>
+        simp only [exec] at hex
+        cases hev : evalE M n env e with
+        | none => simp only [hev, Option.some.injEq, Prod.mk.injEq] at hex; rw [← hex.2.2]; decide
+        | some v =>
+          simp only [hev] at hex
+          cases hk : exec M n f env k with
+          | none => simp [hk] at hex
+          | some rk =>
+            obtain ⟨e1, t1, r1⟩ := rk
+            simp only [hk, Option.bind_eq_bind, Option.bind_some, Option.pure_def, Option.some.injEq, Prod.mk.injEq] at hex
+            rw [← hex.2.2]; exact ih k _ _ _ _ hy hk
+    | putc c k =>
+      simp only [youLevel] at hy
+      simp only [exec] at hex
+      cases hk : exec M n f env k with
+      | none => simp [hk] at hex
+      | some rk =>
+        obtain ⟨e1, t1, r1⟩ := rk
+        simp only [hk, Option.bind_eq_bind, Option.bind_some, Option.pure_def, Option.some.injEq, Prod.mk.injEq] at hex
+        rw [← hex.2.2]; exact ih k _ _ _ _ hy hk
+    | block b k =>
+      simp only [youLevel, Bool.and_eq_true] at hy
+      simp only [exec] at hex
+      cases hb : exec M n f env b with
+      | none => simp [hb] at hex
+      | some rb =>
+        obtain ⟨e1, t1, r1⟩ := rb
+        simp only [hb, Option.bind_eq_bind, Option.bind_some] at hex
+        have h1 := ih b _ _ _ _ hy.1 hb
+        by_cases hn : r1 = .norm
+        · subst hn
+          simp only [if_true] at hex
+          cases hk : exec M n f e1 k with
+          | none => simp [hk] at hex
+          | some rk =>
+            obtain ⟨e2, t2, r2⟩ := rk
+            simp only [hk, Option.bind_some, Option.pure_def, Option.some.injEq, Prod.mk.injEq] at hex
+            rw [← hex.2.2]; exact ih k _ _ _ _ hy.2 hk
+        · simp only [hn, if_false, Option.pure_def, Option.some.injEq, Prod.mk.injEq] at hex
+          rw [← hex.2.2]; exact h1
+    | ifb c t e k =>
+      simp only [youLevel, Bool.and_eq_true] at hy
+      simp only [exec] at hex
+      cases hev : evalB M n env c with
+      | none => simp only [hev, Option.some.injEq, Prod.mk.injEq] at hex; rw [← hex.2.2]; decide
+      | some cv =>
+        simp only [hev] at hex
+        cases hb : exec M n f env (if cv = true then t else e) with
+        | none => simp [hb] at hex
+        | some rb =>
+          obtain ⟨e1, t1, r1⟩ := rb
+          simp only [hb, Option.bind_eq_bind, Option.bind_some] at hex
+          have h1 : r1 ≠ .defeat := ih _ _ _ _ _ (by cases cv <;> simp [hy.1.1, hy.1.2]) hb
+          by_cases hn : r1 = .norm
+          · subst hn
+            simp only [if_true] at hex
+            cases hk : exec M n f e1 k with
+            | none => simp [hk] at hex
+            | some rk =>
+              obtain ⟨e2, t2, r2⟩ := rk
+              simp only [hk, Option.bind_some, Option.pure_def, Option.some.injEq, Prod.mk.injEq] at hex
+              rw [← hex.2.2]; exact ih k _ _ _ _ hy.2 hk
+          · simp only [hn, if_false, Option.pure_def, Option.some.injEq, Prod.mk.injEq] at hex
+            rw [← hex.2.2]; exact h1
+    | loop c body cont k =>
+      have hy0 := hy
+      simp only [youLevel, Bool.and_eq_true] at hy
+      simp only [exec] at hex
+      cases hev : evalB M n env c with
+      | none => simp only [hev, Option.some.injEq, Prod.mk.injEq] at hex; rw [← hex.2.2]; decide
+      | some cv =>
+        cases cv with
+        | false => simp only [hev] at hex; exact ih k _ _ _ _ hy.2 hex
+        | true =>
+          simp only [hev] at hex
+          cases hb : exec M n f env body with
+          | none => simp [hb] at hex
+          | some rb =>
+            obtain ⟨e1, t1, r1⟩ := rb
+            simp only [hb, Option.bind_eq_bind, Option.bind_some] at hex
+            have h1 := ih body _ _ _ _ hy.1.1 hb
+            by_cases hn : r1 = .norm
+            · subst hn
+              simp only [if_true] at hex
+              cases hc : exec M n f e1 cont with
+              | none => simp [hc] at hex
+              | some rc =>
+                obtain ⟨e2, t2, r2⟩ := rc
+                simp only [hc, Option.bind_some] at hex
+                have h2 := ih cont _ _ _ _ hy.1.2 hc
+                by_cases hn2 : r2 = .norm
+                · subst hn2
+                  simp only [if_true] at hex
+                  cases hl : exec M n f e2 (.loop c body cont k) with
+                  | none => simp [hl] at hex
+                  | some rl =>
+                    obtain ⟨e3, t3, r3⟩ := rl
+                    simp only [hl, Option.bind_some, Option.pure_def, Option.some.injEq, Prod.mk.injEq] at hex
+                    rw [← hex.2.2]; exact ih _ _ _ _ _ hy0 hl
+                · simp only [hn2, if_false, Option.pure_def, Option.some.injEq, Prod.mk.injEq] at hex
+                  rw [← hex.2.2]; exact h2
+            · simp only [hn, if_false, Option.pure_def, Option.some.injEq, Prod.mk.injEq] at hex
+              rw [← hex.2.2]; exact h1
+    | defeat k => simp [youLevel] at hy
+    | defeatIf c k => simp [youLevel] at hy
+    | tryUndo body handler k =>
+      simp only [youLevel, Bool.and_eq_true] at hy
+      simp only [exec] at hex
+      cases hb : exec M n f env body with
+      | none => simp [hb] at hex
+      | some rb =>
+        obtain ⟨e1, t1, r1⟩ := rb
+        simp only [hb, Option.bind_eq_bind, Option.bind_some] at hex
+        by_cases hd : r1 = .defeat
+        · subst hd
+          simp only [if_true] at hex
+          cases hh : exec M n f env handler with
+          | none => simp [hh] at hex
+          | some rh =>
+            obtain ⟨e2, t2, r2⟩ := rh
+            simp only [hh, Option.bind_some] at hex
+            have h2 := ih handler _ _ _ _ (plain_youLevel _ hy.1.2) hh
+            by_cases hn2 : r2 = .norm
+            · subst hn2
+              simp only [if_true] at hex
+              cases hk : exec M n f e2 k with
+              | none => simp [hk] at hex
+              | some rk =>
+                obtain ⟨e3, t3, r3⟩ := rk
+                simp only [hk, Option.bind_some, Option.pure_def, Option.some.injEq, Prod.mk.injEq] at hex
+                rw [← hex.2.2]; exact ih k _ _ _ _ hy.2 hk
+            · simp only [hn2, if_false, Option.pure_def, Option.some.injEq, Prod.mk.injEq] at hex
+              rw [← hex.2.2]; exact h2
+        · simp only [hd, if_false] at hex
+          by_cases hn : r1 = .norm
+          · subst hn
+            simp only [if_true] at hex
+            cases hk : exec M n f e1 k with
+            | none => simp [hk] at hex
+            | some rk =>
+              obtain ⟨e3, t3, r3⟩ := rk
+              simp only [hk, Option.bind_some, Option.pure_def, Option.some.injEq, Prod.mk.injEq] at hex
+              rw [← hex.2.2]; exact ih k _ _ _ _ hy.2 hk
+          · simp only [hn, if_false, Option.pure_def, Option.some.injEq, Prod.mk.injEq] at hex
+            rw [← hex.2.2]; exact hd
 
 end HidVerif.Core
